@@ -60,3 +60,12 @@ def fmt(x) -> str:
         return repr(x)
     except Exception:
         return "<?>"
+
+
+def mk_array(eng, values, dtype=float):
+    """SArr under the symbolic engine, a real numpy array in concrete replays"""
+    import numpy as np
+    if getattr(eng, "symbolic", False):
+        from sx.symnp import SArr
+        return SArr(list(values), (len(values),), np.dtype(dtype))
+    return np.array(list(values), dtype=dtype)
